@@ -15,7 +15,7 @@ func init() {
 	register(&Property{
 		ID:         "C14",
 		NeedSSA:    true,
-		Decided:    "Structural necessary conditions: (errflow) in every function of the library's import closure, the error result of every call that can carry a failure of the I/O medium (io/bufio/os interface methods and functions, and module functions that transitively contain such calls) is used: it is not discarded, not bound to `_`, not merely compared and then forgotten, and not overwritten on a loop path before being looked at; the accepted exceptions are frozen with one reason each; (close) (*writer).close performs header, flush, deferred bloom filters, footer and buffer flush in that order and returns the result of the last; (short) writePageTo compares the bytes written with the expected size and reports io.ErrShortWrite; the offset-tracking sink wrapper returns its callee's (n, err) unchanged and adds n to the offset on every path; (readat) the ReadAt helper clears an error only when the buffer was filled. (chunkeof) every stream-read error FilePages.ReadPage returns went through a function that compares the position with the size of the chunk section or turns io.EOF into io.ErrUnexpectedEOF; (copylen) the byte count of a copy from an io.NewSectionReader is used.",
+		Decided:    "Structural necessary conditions: (errflow) in every function of the library's import closure, the error result of every call that can carry a failure of the I/O medium (io/bufio/os interface methods and functions, and module functions that transitively contain such calls) is used: it is not discarded, not bound to `_`, not merely compared and then forgotten, and not overwritten on a loop path before being looked at; the accepted exceptions are frozen with one reason each; (close) (*writer).close performs header, flush, deferred bloom filters, footer and buffer flush in that order and returns the result of the last; (short) writePageTo compares the bytes written with the expected size and reports io.ErrShortWrite; the offset-tracking sink wrapper returns its callee's (n, err) unchanged and adds n to the offset on every path; (readat) the ReadAt helper clears an error only when the buffer was filled. (chunkeof) every stream-read error FilePages.ReadPage returns went through a function that compares the position with the size of the chunk section or turns io.EOF into io.ErrUnexpectedEOF; (copylen) the byte count of a copy from an io.NewSectionReader is used. (rollback) a function that appends, to a list of the writer, entries carrying the index len(writer.rowGroups) of the row group it is about to record, and that can return an error, truncates that list back to a length measured before its first append (in its body or a deferred closure).",
 		NotDecided: "that each byte offset is actually reached; behaviour of foreign io.Writer/io.ReaderAt implementations; whether an error value that is used is also acted upon correctly (a condition inverted, a wrong variable of the same type returned from a used value).",
 		Assumptions: []string{
 			"an SSA error value with no referrers is a dropped error; go/ssa removes dead stores, so an assignment that is overwritten before any read also has no referrers",
@@ -68,6 +68,7 @@ var c14Exceptions = []errException{
 func runC14(c *Ctx) {
 	c14ChunkEOF(c)
 	c14CopyLen(c)
+	runRollbackRule(c, "C14.rollback", "writer", "rowGroups", 1)
 	p := c.P
 	io := NewIOErrs(p)
 	inScope := rootImportClosure(p)
